@@ -234,5 +234,50 @@ def substSite : Handler := fun args =>
     | none => Json.mkObj [("bad", "ast")]
   | _ => Json.mkObj [("bad", "ast")]
 
-def handlers2 : List (String × Handler) := [("substSpec", substSpec), ("substOpts", substOpts), ("substSite", substSite), ("substStr", substStr)]
+/-! ### `substDocs`: a random tree of documents (mirrors `harness/p/c07/c07_docs.go`) -/
+
+/-- `{"v":true}` a value, `{"incl":[[k,v]…],"docs":[…]}` an include entry, `{"ext":true}` a service that extends a base
+    file holding the value -/
+instance : Inhabited Docs.Doc := ⟨.value []⟩
+
+partial def docOfJson (s : Str) (j : Json) : Docs.Doc :=
+  match j.getObjVal? "docs" with
+  | .ok (.arr ds) => .incl (pairsOfJson (getObj j "incl")) (ds.toList.map (docOfJson s))
+  | _ =>
+    match j.getObjVal? "ext" with
+    | .ok (.bool true) => .ext [.value s]
+    | _ => .value s
+
+mutual
+/-- the grammar's reading of the same tree: the meaning of the AST in the environment of the enclosing entries -/
+def evalDoc (env : Sites.GoMap) (t : List Seg) : Docs.Doc → List Out
+  | .value _ => [evalOut (Sites.lookupEnv env) t]
+  | .incl f ds => evalDocs (Sites.includeEnv env f) t ds
+  | .ext ds => evalDocs env t ds
+def evalDocs (env : Sites.GoMap) (t : List Seg) : List Docs.Doc → List Out
+  | [] => []
+  | d :: ds => evalDoc env t d ++ evalDocs env t ds
+end
+
+def substDocs : Handler := fun args =>
+  let envMap : Sites.GoMap := (getStrMap args "env").map fun (k, v) => (k.toList, v.toList)
+  let ast : Option (List Json) := match args.getObjVal? "ast" with
+    | .ok (.arr a) => some a.toList
+    | .ok .null => some []
+    | _ => none
+  let tree : List Json := match args.getObjVal? "tree" with
+    | .ok (.arr a) => a.toList
+    | _ => []
+  match ast with
+  | some a =>
+    match a.mapM segOfJson with
+    | some t =>
+      let docs := tree.map (docOfJson (renderL t))
+      Json.mkObj [("wf", Json.bool (WF t)), ("wf_ml", Json.bool (WFml t)), ("rendered", str (renderL t)),
+        ("model", Json.arr ((Docs.loadValues envMap docs).map outJson).toArray),
+        ("eval", Json.arr ((evalDocs envMap t docs).map outJson).toArray)]
+    | none => Json.mkObj [("bad", "ast")]
+  | _ => Json.mkObj [("bad", "ast")]
+
+def handlers2 : List (String × Handler) := [("substSpec", substSpec), ("substOpts", substOpts), ("substSite", substSite), ("substStr", substStr), ("substDocs", substDocs)]
 end CV.Ops.C07
